@@ -151,12 +151,18 @@ Context (keys : N -> option N).
    session was closed is closed again); false: the code as found *)
 Context (recheck : bool).
 
+(* the methods golang-jwt implements with type *SigningMethodRSA (library fact;
+   PS256/384/512 are *SigningMethodRSAPSS and fail the type assertion of the key
+   function) *)
+Definition jwt_rsa_methods : list string := ["RS256"; "RS384"; "RS512"]%string.
+
 (* ---- parseToken: order of checks of jwt.ParseWithClaims (v5.2.2) with
    WithValidMethods, WithIssuedAt, WithLeeway, followed by the age check ------ *)
 Definition check_token (now : Z) (t : token) : option err :=
   if negb (t_wf t) then Some EAuthFailed
   else if negb (str_mem (t_alg t) proxy_valid_methods) then Some EAuthFailed
   else if negb (t_sigdec t) then Some EAuthFailed
+  else if negb (str_mem (t_alg t) jwt_rsa_methods) then Some EAuthFailed   (* key function: token.Method.( *jwt.SigningMethodRSA) *)
   else match keys (t_iss t) with
   | None => Some EAuthFailed
   | Some k =>
